@@ -29,6 +29,7 @@ class Profile:
         self.grid = None  # None = gen.GRID
         self.no_handle_peeks = False  # CSV: read the state from the file, probe only now and then
         self.allow_no_time = True
+        self.failing_batches = True
         self.min_ops, self.max_ops = 5, 25
         self.probe_every = 1  # probe after every n-th mutating op
         self.max_rows = MAX_ROWS
@@ -103,6 +104,11 @@ def gen_write_op(rng, model, prof):
         if rng.random() < 0.3 and not via_h:
             op["compact"] = True
         op["ps_form"] = rng.choice(["list", "list", "tuple", "gen", "iter", "values"])
+        if prof.failing_batches and rng.random() < 0.12:
+            # the batch fails part-way (histories include operations that raise): the points before the offending
+            # element are stored, the call raises
+            op["bad_at"] = rng.randint(0, len(op["ps"]))
+            op["bad_kind"] = rng.choice(["nonpoint", "raise"])
     elif kind == "update":
         op["q"] = targeted_query(rng, model, prof.query_opts)
         op["args"] = gen.gen_update_args(rng)
@@ -203,7 +209,7 @@ class HistoryRunner:
             huge = n_seed > 60
             while n_seed > 60:
                 # big databases are seeded in batches (also exercises insert_multiple with many points)
-                k = rng.choice([37, 64, 129])
+                k = rng.choice([37, 64, 129]) if prof.max_rows <= 1000 else rng.choice([129, 500, 1000, 1024])
                 ps = [gen.gen_point(rng, prof.meas, False, extra_meas=prof.extra_meas, extra_tag_vals=prof.extra_tag_vals, extra_tag_keys=prof.extra_tag_keys, extra_field_keys=prof.extra_field_keys, grid=prof.grid) for _ in range(k)]
                 for sp in ps:
                     sp["fields"]["seq"] = seq  # a unique sequence number: lets a removal leave exactly N survivors
@@ -212,7 +218,7 @@ class HistoryRunner:
                 n_seed -= k
             if huge and prof.w.get("remove", 0) > 0:
                 # removals that leave exactly 2**k - 1, 2**k, 2**k + 1 survivors (batch / chunk size boundaries)
-                for n_keep in sorted(rng.sample([c for c in (257, 256, 255, 129, 128, 127, 65, 64, 63, 33, 32, 31, 17, 16, 15) if c < seq], 3), reverse=True):
+                for n_keep in sorted(rng.sample([c for c in (2049, 2048, 2047, 1025, 1024, 1023, 1001, 1000, 999, 513, 512, 511, 257, 256, 255, 129, 128, 127, 101, 100, 99, 65, 64, 63, 33, 32, 31, 17, 16, 15) if c < seq], 3), reverse=True):
                     self._write(s, {"op": "remove", "q": ("cmp", "fields", ("seq",), ">=", n_keep)})
                     res.count("trim_to_exact_size")
                     self._probe(s)
